@@ -621,6 +621,19 @@ def service_stage(c, judge):
       out = run_study(c, judge, algo, space, rounds, [c.rng.randrange(1, 6) for _ in range(rounds)], goal=c.rng.choice(['MAXIMIZE', 'MINIMIZE']),
                       infeasible_rate=0.25 if i % 2 == 0 else 0.0)
       record(algo, out, space)
+  # ranges only float64 can hold (a bound above the float32 maximum, a width that overflows in float32, a LOG
+  # range below the float32 subnormals): every algorithm must refuse them or answer inside the space
+  extreme = [
+      [{'name': 'x', 't': 'D', 'lo': 0.0, 'hi': 1e39, 'sc': 'LIN'}, {'name': 'y', 't': 'D', 'lo': 0.0, 'hi': 1.0, 'sc': 'LIN'}],
+      [{'name': 'x', 't': 'D', 'lo': -3e38, 'hi': 3e38, 'sc': 'LIN'}, {'name': 'y', 't': 'D', 'lo': 0.0, 'hi': 1.0, 'sc': 'LIN'}],
+      [{'name': 'x', 't': 'D', 'lo': 1e-50, 'hi': 1e-40, 'sc': 'LOG'}, {'name': 'y', 't': 'D', 'lo': 0.0, 'hi': 1.0, 'sc': 'LIN'}],
+      [{'name': 'x', 't': 'D', 'lo': 1e300, 'hi': 1.5e300, 'sc': 'LIN'}, {'name': 'k', 't': 'C', 'cats': ['a', 'b'], 'sc': None}],
+  ]
+  for ei, space in enumerate(extreme if not quick else extreme[:3]):
+    for algo in FAST_ALGOS + (['GAUSSIAN_PROCESS_BANDIT'] if (not quick and ei == 0) else []):
+      out = run_study(c, judge, algo, space, 2, [2, 1], note=':float64-only-range')
+      record(algo, out, space)
+      c.count(1, ('extreme-range', algo, ei), kind='extreme-range:' + algo)
   # default / centre seeding through the seeded policies: first suggestion of an empty study
   for i in range(6 if quick else 30):
     space = cd.gen_space(c.rng, f32=True, max_params=5, max_int_width=15)
